@@ -214,6 +214,8 @@ class Engine:
     repo_deps = ()          # files under /repo that are #included by the harness TU
     env = {}
     timeout = 600
+    parallel = 1            # >1: the case list is split over this many harness/driver processes (engine must keep
+                            # per-process scratch state only)
 
     def corpus(self, prop):
         d = os.path.join(ROOT, 'corpus', prop)
@@ -242,6 +244,30 @@ class Engine:
         return self.exe
 
     def run_impl(self, exe, cases):
+        if self.parallel > 1 and len(cases) >= 4 * self.parallel:
+            return self._split(lambda cs: self._run_impl1(exe, cs), cases, joinerr=True)
+        return self._run_impl1(exe, cases)
+
+    def _split(self, fn, cases, joinerr=False, extra=None):
+        from concurrent.futures import ThreadPoolExecutor
+        k = self.parallel
+        idx = [list(range(j, len(cases), k)) for j in range(k)]          # round-robin keeps the load even
+        with ThreadPoolExecutor(k) as ex:
+            if extra is None:
+                res = list(ex.map(lambda ix: fn([cases[i] for i in ix]), idx))
+            else:
+                res = list(ex.map(lambda ix: fn([cases[i] for i in ix], [extra[i] if i < len(extra) else [] for i in ix]), idx))
+        out = [[] for _ in cases]
+        errs = []
+        for ix, r in zip(idx, res):
+            lines = r[0] if joinerr else r
+            if joinerr:
+                errs.append(r[1])
+            for i, l in zip(ix, lines):
+                out[i] = l
+        return (out, '\n'.join(e for e in errs if e)) if joinerr else out
+
+    def _run_impl1(self, exe, cases):
         text = ''.join(f'#case {i}\n' + ''.join(o + '\n' for o in c.ops) for i, c in enumerate(cases))
         env = dict(os.environ)
         env.setdefault('ASAN_OPTIONS', 'detect_leaks=1:abort_on_error=0:exitcode=99:allocator_may_return_null=1')
@@ -250,7 +276,8 @@ class Engine:
         env.setdefault('VERIF_SCRATCH', os.path.join(OUT, 'scratch'))
         os.makedirs(env['VERIF_SCRATCH'], exist_ok=True)
         env.update(self.env)
-        errf = os.path.join(OUT, f'{self.name}.{os.getpid()}.stderr')
+        import threading
+        errf = os.path.join(OUT, f'{self.name}.{os.getpid()}.{threading.get_ident()}.stderr')
         os.makedirs(OUT, exist_ok=True)
         with open(errf, 'w') as eh:
             r = subprocess.run([exe], input=text, stdout=subprocess.PIPE, stderr=eh, text=True,
@@ -260,6 +287,11 @@ class Engine:
         return split_cases(r.stdout, len(cases)), err
 
     def run_model(self, cases, impl):
+        if self.parallel > 1 and len(cases) >= 4 * self.parallel:
+            return self._split(self._run_model1, cases, extra=impl)
+        return self._run_model1(cases, impl)
+
+    def _run_model1(self, cases, impl):
         lines = []
         for i, c in enumerate(cases):
             lines.append(f'#case {i}')
